@@ -380,12 +380,15 @@ class FileSystemChain(FileSystem[File[FileSystem[Any]]]):
         """
         for sys, prefix in self.systems:
             full_folder = os.path.join(prefix, folder).replace('\\', '/')
+            # Filenames are case-insensitive, so the prefix might be spelt differently in the path.
+            folded_prefix = prefix.replace('\\', '/').strip('/').casefold()
             for file in sys.walk_folder(full_folder):
-                yield File(
-                    self,
-                    os.path.relpath(file.path, prefix).replace('\\', '/'),
-                    file,
-                )
+                path = file.path.replace('\\', '/')
+                if folded_prefix and path.casefold().startswith(folded_prefix + '/'):
+                    rel_path = path[len(folded_prefix) + 1:]
+                else:
+                    rel_path = os.path.relpath(path, prefix).replace('\\', '/')
+                yield File(self, rel_path, file)
 
     def _get_cache_key(self, file: File[Self]) -> int:
         """Return the last modified time of this file.
